@@ -122,8 +122,54 @@ func (wg *WeightedAuthorizationModelGraph) HasEdge(fromNode, toNode *WeightedAut
 	return false
 }
 
+// hasModelCycle reports whether some cycle of the graph consists of rewrite and computed edges only.
+// Such a cycle needs no tuple to be traversed, so the model is not valid whatever else it contains;
+// the answer does not depend on the order in which the nodes are visited.
+func (wg *WeightedAuthorizationModelGraph) hasModelCycle() bool {
+	const (
+		unseen = iota
+		active
+		done
+	)
+
+	state := make(map[string]int, len(wg.nodes))
+
+	var visit func(nodeID string) bool
+	visit = func(nodeID string) bool {
+		state[nodeID] = active
+		for _, edge := range wg.edges[nodeID] {
+			if edge.edgeType != RewriteEdge && edge.edgeType != ComputedEdge {
+				continue
+			}
+			switch state[edge.to.uniqueLabel] {
+			case active:
+				return true
+			case unseen:
+				if visit(edge.to.uniqueLabel) {
+					return true
+				}
+			}
+		}
+		state[nodeID] = done
+
+		return false
+	}
+
+	for nodeID := range wg.nodes {
+		if state[nodeID] == unseen && visit(nodeID) {
+			return true
+		}
+	}
+
+	return false
+}
+
 // AssignWeights assigns weights to all the edges and nodes of the graph.
 func (wg *WeightedAuthorizationModelGraph) AssignWeights() error {
+	if wg.hasModelCycle() {
+		return ErrModelCycle
+	}
+
 	visited := make(map[string]bool)
 	ancestorPath := make([]*WeightedAuthorizationModelEdge, 0)
 	tupleCycleDependencies := make(map[string][]*WeightedAuthorizationModelEdge)
